@@ -245,7 +245,7 @@ impl PropImpl for C02 {
         vec!["'time proportional to a small polynomial' is decided by a CPU budget of 20 s on inputs up to 16 KiB (existing quadratic paths need < 0.5 s there): refutable, not provable".into()]
     }
     fn budget(&self, tier: Tier) -> Budget {
-        Budget { cases_per_lane: if tier == Tier::Quick { 8000 } else { 200_000 }, tape_max: 700, cpu_s: 20 }
+        Budget { cases_per_lane: if tier == Tier::Quick { 16000 } else { 200_000 }, tape_max: 700, cpu_s: 20 }
     }
     fn spaces(&self, tier: Tier) -> Vec<Space> {
         let l = if tier == Tier::Quick { 3 } else { 4 };
